@@ -3,6 +3,7 @@ module verifharness
 go 1.24
 
 require (
+	connectrpc.com/connect v1.18.1
 	github.com/aws/aws-sdk-go-v2/service/kinesis v1.32.10
 	google.golang.org/protobuf v1.36.3
 	pgregory.net/rapid v1.3.0
@@ -11,7 +12,6 @@ require (
 )
 
 require (
-	connectrpc.com/connect v1.18.1 // indirect
 	github.com/VictoriaMetrics/metrics v1.35.1 // indirect
 	github.com/aws/aws-sdk-go-v2 v1.32.8 // indirect
 	github.com/aws/aws-sdk-go-v2/aws/protocol/eventstream v1.6.7 // indirect
